@@ -156,7 +156,11 @@ S.pow = _pow
 
 
 def _bool(a):
-    if a.numel() != 1 and not (isinstance(a.numel(), SymInt)):
+    n_ = a.numel()
+    if isinstance(n_, SymInt):
+        if not bool(n_ == 1):  # decided under the path condition (forks when the size may or may not be 1)
+            raise RuntimeError("Boolean value of Tensor with more than one value is ambiguous")
+    elif n_ != 1:
         raise RuntimeError("Boolean value of Tensor with more than one value is ambiguous")
     e = a.elem_fn()
     if e is None:
